@@ -2,10 +2,20 @@
 use crate::engine::PropSpec;
 
 pub mod c01;
+pub mod c02;
+pub mod c03;
+pub mod c11;
+pub mod c12;
+pub mod c13;
 
 pub fn spec(id: &str) -> Option<PropSpec> {
     match id {
         "C01" => Some(c01::spec()),
+        "C02" => Some(c02::spec()),
+        "C03" => Some(c03::spec()),
+        "C11" => Some(c11::spec()),
+        "C12" => Some(c12::spec()),
+        "C13" => Some(c13::spec()),
         _ => None,
     }
 }
